@@ -856,7 +856,10 @@ func ruleC02Lower(e *Env) {
 					x, ok := flow.IsLenOf(v)
 					return ok && flow.RootParam(x) == fn.Params[0]
 				}
-				if !lenOf(bo.X) && !lenOf(bo.Y) {
+				// a count handed back by a call (`strings.IndexByte(letters, b) >= 0`) is not a position in the buffer
+				_, xCall := bo.X.(*ssa.Call)
+				_, yCall := bo.Y.(*ssa.Call)
+				if !lenOf(bo.X) && !lenOf(bo.Y) && !xCall && !yCall {
 					stray = "a test on a position (" + bo.String() + " at " + e.posOf(bo) + ") other than the loop's own bound"
 				}
 			}
